@@ -5,6 +5,7 @@
 # Date   : Feb 13, 2019
 """Helper methods for RTLIR."""
 
+import dataclasses
 import inspect
 
 from pymtl3.datatypes import Bits, is_bitstruct_class
@@ -75,6 +76,13 @@ def get_component_full_name( c_rtype ):
       return '{' + ', '.join( f"{get_string(k)}: {get_string(v)}" for k, v in obj.items() ) + '}'
     if type( obj ) in ( set, frozenset ):
       return '{' + ', '.join( sorted( get_string(x) for x in obj ) ) + '}'
+    # ... also inside a named tuple or a dataclass instance
+    if isinstance( obj, tuple ) and hasattr( obj, '_fields' ):
+      return type( obj ).__name__ + '(' + ', '.join( f"{k}={get_string(v)}" for k, v in zip( obj._fields, obj ) ) + ')'
+    if dataclasses.is_dataclass( obj ) and type( obj ).__repr__ is not object.__repr__ and \
+       not hasattr( type( obj ), '__bitstruct_fields__' ):
+      return type( obj ).__name__ + '(' + ', '.join( f"{f.name}={get_string(getattr(obj, f.name))}"
+                                                     for f in dataclasses.fields( obj ) if f.repr ) + ')'
     return str( obj )
 
   comp_name = c_rtype.get_name()
